@@ -92,6 +92,10 @@ def gen_pipe_case(rng):
         # interaction features are built (and sampled, on their own storage since fix 45d13a2) before the pairs
         # are sampled, exactly as compute_batch_ranking does; the cap is chosen to bind on the pairs
         case["interaction_order"] = 2
+        # here the ' AND_REL ' columns are produced by compute_combined_features itself; a base column that already
+        # carries such a name would collide with the generated one (duplicate column label: not a pipeline input)
+        names = [n if " AND_REL " not in n else "r%d" % i for i, n in enumerate(names)]
+        case["columns"] = names
         case["heuristic"] = rng.choice(["MI-numba-3mr", "max-value-coverage", "Constant"])
         nf = len(names) - 1
         lo = nf * (nf - 1) // 2
